@@ -8,12 +8,13 @@ Open Scope Z_scope.
 Definition pow_factor (w : Z) (s : bool) (b e : Z) : Z :=
   Z.lor (wrap w s (b * Z.land e 1)) (Z.land (Z.lnot e) 1).
 
-(* while (likely(e)) { t *= factor; b *= b; e >>= 1; }   -- None = out of fuel *)
+(* while (likely(e)) { t *= factor; e >>= 1; if (likely(e)) b *= b; }   -- None = out of fuel *)
 Fixpoint pow_loop (fuel : nat) (w : Z) (s : bool) (t b e : Z) : option Z :=
   if e =? 0 then Some t
   else match fuel with
        | O => None
-       | S f => pow_loop f w s (wrap w s (t * pow_factor w s b e)) (wrap w s (b * b)) (Z.shiftr e 1)
+       | S f => pow_loop f w s (wrap w s (t * pow_factor w s b e))
+                         (if Z.shiftr e 1 =? 0 then b else wrap w s (b * b)) (Z.shiftr e 1)
        end.
 
 Definition int_pow (w : Z) (s : bool) (b e : Z) : option Z :=
@@ -47,3 +48,43 @@ Definition pow2_value (n : Z) : option Z :=
   | P2Lshift k => Some (Z.shiftl 1 k)
   | P2Fallback => if n <? 0 then None (* float result: PyNumber_Power *) else Some (2 ^ n)
   end.
+
+(* ---- overflow-tracking variant of the helper (C36 share) ---------------------------------
+   Signed C multiplication that overflows is undefined behaviour: PUB.  `fixsq` = true is the
+   current text, which squares the base only while further exponent bits remain
+       e >>= 1;  if (likely(e)) b *= b;
+   fixsq = false the text before the repair (b *= b unconditionally: one needless squaring
+   after the last multiplication). *)
+Inductive pres := PVal (v : Z) | PUB | PFuel.
+
+Definition mulc (w : Z) (s : bool) (x y : Z) : option Z :=
+  if s then (if in_rangeb w s (x * y) then Some (x * y) else None)
+  else Some (wrap w s (x * y)).
+
+Fixpoint pow_loop_ck (fixsq : bool) (fuel : nat) (w : Z) (s : bool) (t b e : Z) : pres :=
+  if e =? 0 then PVal t
+  else match fuel with
+       | O => PFuel
+       | S f =>
+           match mulc w s t (if Z.odd e then b else 1) with
+           | None => PUB
+           | Some t' =>
+               let e' := Z.shiftr e 1 in
+               if fixsq && (e' =? 0) then pow_loop_ck fixsq f w s t' b e'
+               else match mulc w s b b with
+                    | None => PUB
+                    | Some b' => pow_loop_ck fixsq f w s t' b' e'
+                    end
+           end
+       end.
+
+Definition int_pow_ck (fixsq : bool) (w : Z) (s : bool) (b e : Z) : pres :=
+  if e =? 3 then match mulc w s b b with
+                 | None => PUB
+                 | Some t => match mulc w s t b with None => PUB | Some r => PVal r end
+                 end
+  else if e =? 2 then match mulc w s b b with None => PUB | Some r => PVal r end
+  else if e =? 1 then PVal b
+  else if e =? 0 then PVal 1
+  else if s && (e <? 0) then PVal 0
+  else pow_loop_ck fixsq (Z.to_nat w) w s 1 b e.
